@@ -8,7 +8,8 @@ props = [json.loads(l) for l in open(os.path.join(V, "properties.jsonl"))]
 checks = []; na = []
 for p in props:
     pid = p["id"]; m = meta.get(pid)
-    if not m or m.get("disabled"):
+    enabled = open(os.path.join(V, "harness", "ENABLED")).read().split()
+    if not m or m.get("disabled") or pid not in enabled:
         na.append({"property_id": pid, "reason": (m or {}).get("disabled", "check not built yet (see DESIGN.md section 6 for the order of implementation)")})
         continue
     checks.append({
